@@ -6,6 +6,7 @@ import (
 	"math/big"
 
 	"github.com/gcash/bchd/bchec"
+	"github.com/gcash/bchutil/base58"
 )
 
 // idealised secp256k1 and Base58 boundary (same contracts as in harness/hdkeychain/stubs.go)
@@ -120,3 +121,22 @@ func zzStubB58Encode(b []byte) string {
 func zzStubB58Decode(s string) []byte { return append([]byte(nil), zzB58Decoded...) }
 
 func zzDsha(b []byte) []byte { return zzHashSha(zzHashSha(b)) }
+
+// zzB58: the real Base58 encoder (abstract bijection inside the engine)
+func zzB58(b []byte) string { return base58.Encode(b) }
+
+func zzWifSer(w *WIF) []byte {
+	str := w.String()
+	if !vSymbolic() {
+		return base58.Decode(str)
+	}
+	return append([]byte(nil), zzB58Encoded...)
+}
+
+func zzWifParse(b []byte) (*WIF, error) {
+	if !vSymbolic() {
+		return DecodeWIF(base58.Encode(b))
+	}
+	zzB58Decoded = b
+	return DecodeWIF("<base58>")
+}
